@@ -35,3 +35,38 @@ lemma("pareto_feasibility_first", props=["C01", "C05"], vars=_three[:2],
       hyps=_len2 + ["p[len(p)-1] == 0", "q[len(q)-1] != 0"], goal="pareto_spec(p, q) == 1")
 lemma("pareto_neither_iff", props=["C01"], vars=_three[:2], hyps=_len2 + ["p[len(p)-1] == q[len(q)-1]"],
       goal="(pareto_spec(p, q) == 0) == (not dom(p, q, len(p)-1) and not dom(q, p, len(p)-1))")
+
+# ---- C01: epsilon comparator --------------------------------------------------------------------------
+# Float division is kept uninterpreted (fdiv): the only facts used are functionality and, for the pairs the
+# property quantifies over ("differ by more than rounding error"), that scaling keeps strict order.
+define("eps_at", ["s", "i"], "s.epsilons[i % len(s.epsilons)]")
+define("separated", ["s", "p", "q", "m"],
+       "forall(lambda i: implies(p[i] < q[i], fdiv(p[i], eps_at(s, i)) < fdiv(q[i], eps_at(s, i))) and "
+       "implies(q[i] < p[i], fdiv(q[i], eps_at(s, i)) < fdiv(p[i], eps_at(s, i))), 0, m)")
+define("same_objs", ["p", "q", "m"], "forall(lambda i: p[i] == q[i], 0, m)")
+define("eps_spec", ["p", "q"],
+       "ite(feas_better(p[len(p)-1], q[len(q)-1]), 1, ite(feas_better(q[len(q)-1], p[len(p)-1]), 2, "
+       "ite(dom(p, q, len(p)-1), 1, ite(dom(q, p, len(p)-1), 2, ite(same_objs(p, q, len(p)-1), 2, 0)))))")
+
+contract("artap.operators:EpsilonDominance.compare",
+         props=["C01", "C04", "C18"],
+         options={"float_div": "uninterpreted"},
+         types={"p": "List[Real]", "q": "List[Real]", "result": "Int"},
+         requires=["len(p) == len(q)", "len(p) >= 2", "len(self.epsilons) >= 1",
+                   "forall(lambda i: self.epsilons[i] > 0, 0, len(self.epsilons))",
+                   "separated(self, p, q, len(p)-1)"],
+         ensures=["result == eps_spec(p, q)"],
+         loops={1: ["dominate_p == exists(lambda i: q[i] > p[i], 0, _k)",
+                    "dominate_q == exists(lambda i: p[i] > q[i], 0, _k)",
+                    "not (dominate_p and dominate_q)"],
+                2: ["dist1 == dist2"]},
+         locals={"dist1": "Real", "dist2": "Real"},
+         pure=True, returns="eps_spec(p, q)")
+
+# what the property says about the epsilon comparator, as lemmas over its postcondition
+lemma("eps_agrees_with_pareto", props=["C01"], vars=_three[:2], hyps=_len2 + ["not same_objs(p, q, len(p)-1)"],
+      goal="eps_spec(p, q) == pareto_spec(p, q)")
+lemma("eps_names_a_loser_for_identical", props=["C01", "C04"], vars=_three[:2], hyps=_len2 + ["seq_eq(p, q)"],
+      goal="eps_spec(p, q) == 2")
+lemma("eps_never_zero_on_equal_objectives", props=["C01", "C04"], vars=_three[:2],
+      hyps=_len2 + ["same_objs(p, q, len(p)-1)"], goal="eps_spec(p, q) != 0")
